@@ -379,7 +379,7 @@ theorem frameEmax_lt (emax e A : Int) (hA : 0 ≤ A) (h : A > frameEmax emax e) 
     · rw [if_neg b] at h; simp only [MaxExponent, MinExponent] at a b; omega
 
 theorem quantizeCore_spec (c : Ctx) (x : Dec) (hx : x.form = .finite) (e : Int)
-    (hgap : x.exp - e ≤ 100000)
+    (hgap : x.coeff = 0 ∨ x.exp - e ≤ 100000)
     (hgap2 : (ndigits x.coeff : Int) < e - x.exp ∨ e - x.exp < 100000 ∨
       (e - x.exp = 100000 ∧
         ndigits (roundAt c.mode x.neg x.coeff 1 x.exp e).1 ≤ ndigits (x.coeff / 10 ^ 100000))) :
@@ -392,10 +392,18 @@ theorem quantizeCore_spec (c : Ctx) (x : Dec) (hx : x.form = .finite) (e : Int)
   simp only []
   by_cases hd : e - x.exp < 0
   · left
-    rw [if_pos hd, if_neg (by simp only [MinExponent]; omega), roundAt_nonpos _ _ _ _ _ (by omega)]
-    have : -(e - x.exp) = x.exp - e := by omega
-    rw [this]
-    simp [QGood]
+    rw [if_pos hd, roundAt_nonpos _ _ _ _ _ (by omega)]
+    by_cases hz : x.coeff = 0
+    · -- a zero is not rescaled, whatever the distance (repair of finding F6)
+      have h1 : x.isZero = true := by simp [Dec.isZero, hx, hz]
+      simp [h1, QGood, hz]
+    · have h1 : x.isZero = false := by simp [Dec.isZero, hz]
+      have hg : x.exp - e ≤ 100000 := by rcases hgap with h | h; exact absurd h hz; exact h
+      simp only [h1, Bool.not_false, if_true]
+      rw [if_neg (by simp only [MinExponent]; omega)]
+      have : -(e - x.exp) = x.exp - e := by omega
+      rw [this]
+      simp [QGood]
   · rw [if_neg hd]
     by_cases hd0 : e - x.exp > 0
     · rw [if_pos hd0]
@@ -627,4 +635,85 @@ theorem modf_spec (x : Dec) (hx : x.form = .finite) (hexp : x.exp ≤ 0) :
   · rw [if_neg h]
     simp [Dec.sign]
 
+
+/-! ## zeros (repair of finding F6: a zero coefficient is never rescaled) -/
+
+theorem frameEmax_nonneg (emax e : Int) (h : e ≤ emax) : 0 ≤ frameEmax emax e := by
+  unfold frameEmax
+  simp only []
+  by_cases a : emax - e > MaxExponent
+  · rw [if_pos a]; simp only [MaxExponent]; omega
+  · rw [if_neg a, if_neg (by simp only [MinExponent]; omega)]; omega
+
+/-- `Round` with precision 0 on the one-digit coefficient `0` at exponent -1 (the frame of `quantize` when a zero
+loses exactly one digit): the zero at exponent 0, with Rounded -/
+theorem roundX_zero_prec0 (nc : Ctx) (hp : nc.prec = 0) (hm : nc.emin = MinExponent) (hM : 0 ≤ nc.emax)
+    (s : Bool) :
+    roundX nc { form := .finite, neg := s, exp := -1, coeff := 0 } false =
+      ({ form := .finite, neg := s, exp := 0, coeff := 0 }, cRounded) := by
+  have hn0 : ndigits 0 = 1 := by decide
+  rw [roundX_finite _ _ _ rfl]
+  have h1 : ((({ form := .finite, neg := s, exp := -1, coeff := 0 } : Dec).sign != 0) &&
+      decide (({ form := .finite, neg := s, exp := -1, coeff := 0 } : Dec).exp +
+        (ndigits ({ form := .finite, neg := s, exp := -1, coeff := 0 } : Dec).coeff : Int) - 1 < nc.emin)) = false := by
+    simp [Dec.sign]
+  rw [roundX_round nc _ false 1 (by simp) h1 (by simp [hn0, hp]) (by decide) (by decide)]
+  have hr : rres 0 1 = cRounded := by decide
+  have hy : ∀ m, ryd m s 0 1 = (0, 1) := by intro m; simp [ryd]
+  simp only [hr, hy]
+  rw [setExponent_ok nc _ _ _ (by decide) (by simp [sumInts, hn0]) (by simp [sumInts, hn0])
+    (by simp [sumInts, hn0, hm, MinExponent]) (by simp [sumInts, hn0]; omega) (by decide)]
+  simp [sumInts]
+  decide
+
+/-- `quantizeCore` on a zero: the zero at the requested exponent, whatever the distance between the two
+exponents (repair of finding F6).  The only condition ever raised is Rounded, when exactly one digit is dropped
+(`Round` with precision 0 on the one-digit coefficient `0`). -/
+theorem quantizeCore_zero (c : Ctx) (x : Dec) (hx : x.form = .finite) (hz : x.coeff = 0) (e : Int)
+    (he : e ≤ c.emax) :
+    quantizeCore c x e = ({ x with exp := e }, if e - x.exp = 1 then cRounded else {}) := by
+  have hn0 : ndigits 0 = 1 := by decide
+  have h1 : x.isZero = true := by simp [Dec.isZero, hx, hz]
+  unfold quantizeCore
+  simp only [h1, hz, hn0, Bool.not_true, Bool.false_eq_true, if_false]
+  by_cases hd : e - x.exp < 0
+  · rw [if_pos hd, if_neg (by omega)]
+  · rw [if_neg hd]
+    by_cases hd0 : e - x.exp > 0
+    · rw [if_pos hd0]
+      by_cases hp : ((1 : Nat) : Int) - (e - x.exp) < 0
+      · rw [if_pos hp, if_neg (by omega)]
+      · rw [if_neg hp]
+        have hd1 : e - x.exp = 1 := by omega
+        rw [if_pos hd1]
+        simp only [hd1, hx]
+        rw [roundX_zero_prec0 _ (by simp) rfl (frameEmax_nonneg _ _ he) x.neg]
+        simp
+    · rw [if_neg hd0, if_neg (by omega)]
+
+/-- `Context.round` leaves a zero whose exponent is within the context's range (Etiny … Emax) and the package's
+alone, with no condition -/
+theorem ctxRound_zero (c : Ctx) (c1 : 1 ≤ c.prec) (c3 : c.emax ≤ 100000) (c5 : c.emin ≤ 0) (d : Dec) (hf : d.form = .finite)
+    (hz : d.coeff = 0) (he1 : c.emin - (c.prec : Int) + 1 ≤ d.exp) (he2 : d.exp ≤ c.emax)
+    (he3 : -100000 ≤ d.exp) :
+    ctxRound c d = (d, {}) := by
+  have hn0 : ndigits 0 = 1 := by decide
+  have h0 : (true && c.prec == 0) = false := by
+    have : c.prec ≠ 0 := by omega
+    simp [this]
+  have hzz : d.isZero = true := by simp [Dec.isZero, hf, hz]
+  have h1 : (d.sign != 0 && decide (d.exp + (ndigits d.coeff : Int) - 1 < c.emin)) = false := by
+    rw [sign_ne_zero, hzz]; rfl
+  rw [ctxRound_finite c d hf]
+  unfold ctxRoundFin
+  rw [roundX_noround c d true h0 h1 (by rw [hz, hn0]; omega)]
+  have hs : sumInts [d.exp, 0] = d.exp := by simp [sumInts]
+  have hx : checkXs [d.exp, 0] = none := checkXs_two _ _ he3 (by omega) (by omega) (by omega)
+  by_cases hB : d.exp < c.emin
+  · rw [setExponent_sub c d _ _ hx (by rw [hs, hz, hn0]; omega) (by rw [hs, hz, hn0]; omega)
+          (by omega) (by rw [hs]; omega)]
+    simp [seFinish, hs, hzz]
+  · rw [setExponent_ok c d _ _ hx (by rw [hs, hz, hn0]; omega) (by rw [hs, hz, hn0]; omega)
+          (by rw [hs, hz, hn0]; omega) (by rw [hs, hz, hn0]; omega) (by simp)]
+    rw [hs]
 end Apd.C09L
